@@ -1,7 +1,7 @@
 """C06: per-actor certificates + glue (see lean/Poupool/Properties/C06.lean and checks/actors_common.py)."""
 from checks import actors_common as ac
 
-THEOREMS = ['Poupool.C06.filtration_heat_interlock', 'Poupool.C06.heating_recovering_exits', 'Poupool.C06.heating_start_is_guarded', 'Poupool.C06.comfort_to_standby_is_guarded', 'Poupool.C01.heating_off_unless_heating_or_forcing', 'Poupool.C01.glue_heating_not_forcing', 'Poupool.C01.glue_heating_not_heating']
+THEOREMS = ['Poupool.C06.filtration_heat_interlock', 'Poupool.C06.heating_running_exits', 'Poupool.C06.heating_recovering_exits', 'Poupool.C06.heating_start_is_guarded', 'Poupool.C06.comfort_to_standby_is_guarded', 'Poupool.C01.heating_off_unless_heating_or_forcing', 'Poupool.C01.glue_heating_not_forcing', 'Poupool.C01.glue_heating_not_heating']
 COMPOSE = ['Poupool.ComposeProps.only_master_starts', 'Poupool.ComposeProps.filtHeat_discipline', 'Poupool.ComposeProps.filtHeat_not_forcing_when_served', 'Poupool.ComposeProps.filtHeatSched_discipline', 'Poupool.ComposeProps.filtHeatSched_not_heating_when_served', 'Poupool.ComposeProps.filtration_knows_not_heating', 'Poupool.ComposeProps.filtHeatSched_composed', 'Poupool.ComposeProps.filtHeatSched_demo']
 TIMING = ['Poupool.Timing.filtration_const_end_on_time', 'Poupool.Timing.filtration_const_last', 'Poupool.Timing.filtration_const_exits', 'Poupool.Timing.heating_delay_goes_to_delay_none', 'Poupool.Timing.heating_recovering']
 MODULE = "Poupool.Properties.C06"
